@@ -1,0 +1,5 @@
+//go:build !verif
+
+package daemon
+
+func verifHookBackgroundWorker(*OrderedDaemon, string) {}
